@@ -95,7 +95,7 @@ func inlinePackages(c *Ctx) (bool, []string) {
 			continue
 		}
 		p := c.Pkgs[k]
-		for round := 0; round < 3; round++ {
+		for round := 0; round < 6; round++ {
 			in := &inliner{c: c, p: p, seq: round * 1000}
 			if !in.run(k) {
 				break
@@ -210,6 +210,12 @@ func (in *inliner) run(pk string) bool {
 	}
 	if len(cands) == 0 {
 		return false
+	}
+	// bring helper calls into the statement forms expanded below (prenorm.go); the package is re-checked and the
+	// next round inlines
+	if in.preNormalise(cands) {
+		in.notes = append(in.notes, "pre-normalised helper calls in "+pk)
+		return true
 	}
 	did := false
 	for _, f := range p.Syntax {
